@@ -415,7 +415,7 @@ def do_check(pid, tier, only=None, keep=False, jobs=None, scratch=None):
             seen_k.add(kf['id'])
             lines.append('KNOWN-FINDING: property=%s %s' % (pid, kf['what']))
         for l in lines: print(l)
-        write_evidence(pid, tier, seed, mod, queries, results, violations, known_hits, inconclusive, validated, time.time() - t_start)
+        write_evidence(pid, tier, seed, mod, queries, results, violations, known_hits, inconclusive, validated, time.time() - t_start, partial=bool(only))
         for name, kind, why in inconclusive:
             sys.stderr.write('INCONCLUSIVE %s: %s: %s\n' % (name, kind, why))
         if violations: return 1
@@ -424,7 +424,7 @@ def do_check(pid, tier, only=None, keep=False, jobs=None, scratch=None):
     finally:
         if not keep: shutil.rmtree(scratch, ignore_errors=True)
 
-def write_evidence(pid, tier, seed, mod, queries, results, violations, known_hits, inconclusive, validated, wall):
+def write_evidence(pid, tier, seed, mod, queries, results, violations, known_hits, inconclusive, validated, wall, partial=False):
     qs = []; fn = set(); evals = 0; nontriv = 0; samples = []; steps = 0; clauses = 0; vars_ = 0; solver_s = 0.0
     assumptions = set(getattr(mod, 'ASSUMPTIONS', []))
     for r in results:
@@ -468,7 +468,8 @@ def write_evidence(pid, tier, seed, mod, queries, results, violations, known_hit
     }
     evdir = os.environ.get('VP_EVIDENCE_DIR') or os.path.join(VERIF, 'evidence')   # VP_EVIDENCE_DIR: mutant trials must not overwrite committed evidence
     os.makedirs(evdir, exist_ok=True)
-    json.dump(ev, open(os.path.join(evdir, pid + '.json'), 'w'), indent=1, default=str)
+    # a run restricted with --only (debugging) must not replace the evidence of the full check
+    json.dump(ev, open(os.path.join(evdir, pid + ('.partial.json' if partial else '.json')), 'w'), indent=1, default=str)
 
 # ----------------------------------------------------------------------------- replay command
 def do_replay(path):
